@@ -3,6 +3,7 @@ import GroupbyVerif.Lemmas.Monotonic
 import GroupbyVerif.LoopBridge.CountingSort
 import GroupbyVerif.LoopBridge.WeightCode
 import GroupbyVerif.LoopBridge.MonoFact
+import GroupbyVerif.LoopBridge.CombineFact
 
 /-!
 # C02 — Factorization is a faithful partition of the rows
@@ -569,5 +570,138 @@ example :
     let r := Generated.Loops.build_group_sorted_indexer .f [[1, -1], [0, 1]] 2 (arrOf [1, 2] 0) false 0 (fun _ => 0)
       false 0 (arrOf [] true)
     ((List.range 3).map fun (p : Nat) => r.1 (p : Int)) = [2, 0, 3] := by decide
+
+/-! ### `_combine_factorizations` (array tracker), translated from `factorization.py` on every run -/
+
+/-- the code matrix as the array the kernel reads (`rows[i][c]`) -/
+def matOf (rows : List (List Int)) : Int → Int → Int := fun i c => (rows.getD i.toNat []).getD c.toNat 0
+
+/-- mixed-radix key of a row of per-key codes, `-1` when some key is null -/
+def mixedKey (shape : List Nat) (r : List Int) : Int :=
+  match weightCodeSum r shape with | none => -1 | some v => (v : Int)
+
+/-- the keys the translated loop computes are the mixed-radix keys of the model -/
+theorem combine_keys (k : Kind) (rows : List (List Int)) (shape : List Nat) (hs : shape ≠ [])
+    (hlen : ∀ r ∈ rows, r.length = shape.length) (hge : ∀ r ∈ rows, ∀ c ∈ r, -1 ≤ c) :
+    (∀ i : Nat, i < rows.length →
+      Generated.Loops.weight_code_sum k shape.length (matOf rows (i : Int)) (LoopBridge.weightsOf shape).length
+        (arrOf (LoopBridge.weightsOf shape) 0) = (mixedKey shape (rows.getD i []), false)) ∧
+    LoopBridge.cfKeys k rows.length shape.length (matOf rows) (LoopBridge.weightsOf shape).length
+      (arrOf (LoopBridge.weightsOf shape) 0) = rows.map (mixedKey shape) := by
+  have hrowfn : ∀ i : Nat, matOf rows (i : Int) = arrOf (rows.getD i []) 0 := by
+    intro i; funext c; simp [matOf, arrOf]
+  have hmem : ∀ i : Nat, i < rows.length → rows.getD i [] ∈ rows := by
+    intro i hi; rw [List.getD_eq_getElem?_getD, List.getElem?_eq_getElem hi]; exact List.getElem_mem hi
+  have hw : ∀ i : Nat, i < rows.length →
+      Generated.Loops.weight_code_sum k shape.length (matOf rows (i : Int)) (LoopBridge.weightsOf shape).length
+        (arrOf (LoopBridge.weightsOf shape) 0) = (mixedKey shape (rows.getD i []), false) := by
+    intro i hi
+    have hr := hmem i hi
+    have hne : rows.getD i [] ≠ [] := by
+      intro h0; have := hlen _ hr; rw [h0] at this; exact hs (List.length_eq_zero_iff.mp this.symm)
+    have h := LoopBridge.weight_code_sum_eq k (rows.getD i []) shape (hlen _ hr) hne (hge _ hr)
+    rw [hrowfn i, ← hlen _ hr]
+    exact Prod.ext h.2 h.1
+  refine ⟨hw, ?_⟩
+  apply List.ext_getElem?
+  intro i
+  by_cases hi : i < rows.length
+  · rw [LoopBridge.cfKeys_get _ _ _ _ _ _ i hi]
+    unfold LoopBridge.cfKey
+    rw [hw i hi]
+    simp [List.getD_eq_getElem?_getD, List.getElem?_eq_getElem hi]
+  · rw [List.getElem?_eq_none_iff.mpr (by rw [LoopBridge.cfKeys_length]; omega),
+      List.getElem?_eq_none_iff.mpr (by simp; omega)]
+
+/-- **several keys, the combination step at the source level**: for every matrix of per-key codes (every row as long
+as the shape, entries `-1` or below the shape's digit bound), the translated `_combine_factorizations`, run with the
+weights `factorize_2d` passes and an array tracker of `prod(shape) > 0` cells initialised to `-1`, numbers the rows'
+mixed-radix keys in order of first appearance: the code of a row is `-1` iff some key of the row is null, otherwise the
+position of its key among the distinct keys (so two rows get the same code iff their keys are equal), and `uniques[g]`
+is the code row where the `g`-th distinct key first appears; no error is flagged.  The aliasing `uniques = codes` of
+the source is part of what is proved (rows not yet visited are never overwritten). -/
+theorem source_combine_factorizations (k : Kind) (rows : List (List Int)) (shape : List Nat) (hs : shape ≠ [])
+    (hp : 0 < prodList shape)
+    (hlen : ∀ r ∈ rows, r.length = shape.length) (hge : ∀ r ∈ rows, ∀ c ∈ r, -1 ≤ c)
+    (hb : ∀ r ∈ rows, ∀ v, weightCodeSum r shape = some v → v < prodList shape)
+    (tracker : Int → Int) (htr : ∀ x : Int, 0 ≤ x → x < (prodList shape : Int) → tracker x = -1) :
+    let keys := rows.map (mixedKey shape)
+    let L := dedup (keys.filter (fun x => decide (x ≠ -1)))
+    let r := Generated.Loops.combine_factorizations_arr k rows.length shape.length (matOf rows)
+      (LoopBridge.weightsOf shape).length (arrOf (LoopBridge.weightsOf shape) 0) (prodList shape : Int) tracker
+    r.2 = false ∧ r.1.2.2 = (L.length : Int) ∧
+      (∀ j : Nat, j < rows.length → r.1.1 (j : Int) = if keys.getD j 0 = -1 then -1 else (L.idxOf (keys.getD j 0) : Int)) ∧
+      (∀ g : Nat, g < L.length → ∀ c : Int, r.1.2.1 (g : Int) c = matOf rows ((keys.idxOf (L.getD g 0) : Nat) : Int) c) := by
+  intro keys L r
+  obtain ⟨hw, hkeys⟩ := combine_keys k rows shape hs hlen hge
+  have hmem : ∀ i : Nat, i < rows.length → rows.getD i [] ∈ rows := by
+    intro i hi; rw [List.getD_eq_getElem?_getD, List.getElem?_eq_getElem hi]; exact List.getElem_mem hi
+  have hkey : ∀ i : Nat, i < rows.length →
+      LoopBridge.cfKey k shape.length (matOf rows) (LoopBridge.weightsOf shape).length (arrOf (LoopBridge.weightsOf shape) 0) i
+        = mixedKey shape (rows.getD i []) := by
+    intro i hi; unfold LoopBridge.cfKey; rw [hw i hi]
+  have hkd : ∀ i : Nat, i < rows.length → keys.getD i 0 = mixedKey shape (rows.getD i []) := by
+    intro i hi; simp [keys, List.getD_eq_getElem?_getD, List.getElem?_eq_getElem hi]
+  have hL : LoopBridge.cfLabels k rows.length shape.length (matOf rows) (LoopBridge.weightsOf shape).length
+      (arrOf (LoopBridge.weightsOf shape) 0) rows.length = L := by
+    unfold LoopBridge.cfLabels
+    rw [hkeys, List.take_of_length_le (by simp)]
+  have hpos : (0 : Int) < (prodList shape : Int) := by exact_mod_cast hp
+  have h := LoopBridge.combine_factorizations_arr_eq k rows.length shape.length (matOf rows)
+    (LoopBridge.weightsOf shape).length (arrOf (LoopBridge.weightsOf shape) 0) (prodList shape : Int) tracker hpos htr
+    (fun i hi => by rw [hw i hi])
+    (fun i hi => by
+      rw [hkey i hi]
+      unfold mixedKey
+      cases hv : weightCodeSum (rows.getD i []) shape with
+      | none => left; rfl
+      | some v =>
+        right
+        have := hb _ (hmem i hi) v hv
+        exact ⟨Int.natCast_nonneg v, by show ((v : Nat) : Int) < _; exact_mod_cast this⟩)
+  simp only [hL, hkeys] at h
+  obtain ⟨h1, h2, h3, h4⟩ := h
+  refine ⟨h1, h2, fun j hj => ?_, h4⟩
+  rw [h3 j hj, hkey j hj, hkd j hj]
+
+/-- the same with the dict tracker (`nb.typed.Dict`, empty at entry): no bound on the keys is needed and no `KeyError`
+is raised -/
+theorem source_combine_factorizations_dict (k : Kind) (rows : List (List Int)) (shape : List Nat) (hs : shape ≠ [])
+    (hlen : ∀ r ∈ rows, r.length = shape.length) (hge : ∀ r ∈ rows, ∀ c ∈ r, -1 ≤ c) :
+    let keys := rows.map (mixedKey shape)
+    let L := dedup (keys.filter (fun x => decide (x ≠ -1)))
+    let r := Generated.Loops.combine_factorizations_dict k rows.length shape.length (matOf rows)
+      (LoopBridge.weightsOf shape).length (arrOf (LoopBridge.weightsOf shape) 0) 0 (fun _ => none)
+    r.2 = false ∧ r.1.2.2 = (L.length : Int) ∧
+      (∀ j : Nat, j < rows.length → r.1.1 (j : Int) = if keys.getD j 0 = -1 then -1 else (L.idxOf (keys.getD j 0) : Int)) ∧
+      (∀ g : Nat, g < L.length → ∀ c : Int, r.1.2.1 (g : Int) c = matOf rows ((keys.idxOf (L.getD g 0) : Nat) : Int) c) := by
+  intro keys L r
+  obtain ⟨hw, hkeys⟩ := combine_keys k rows shape hs hlen hge
+  have hkey : ∀ i : Nat, i < rows.length →
+      LoopBridge.cfKey k shape.length (matOf rows) (LoopBridge.weightsOf shape).length (arrOf (LoopBridge.weightsOf shape) 0) i
+        = mixedKey shape (rows.getD i []) := by
+    intro i hi; unfold LoopBridge.cfKey; rw [hw i hi]
+  have hkd : ∀ i : Nat, i < rows.length → keys.getD i 0 = mixedKey shape (rows.getD i []) := by
+    intro i hi; simp [keys, List.getD_eq_getElem?_getD, List.getElem?_eq_getElem hi]
+  have hL : LoopBridge.cfLabels k rows.length shape.length (matOf rows) (LoopBridge.weightsOf shape).length
+      (arrOf (LoopBridge.weightsOf shape) 0) rows.length = L := by
+    unfold LoopBridge.cfLabels
+    rw [hkeys, List.take_of_length_le (by simp)]
+  have h := LoopBridge.combine_factorizations_dict_eq k rows.length shape.length (matOf rows)
+    (LoopBridge.weightsOf shape).length (arrOf (LoopBridge.weightsOf shape) 0) (fun i hi => by rw [hw i hi])
+  simp only [hL, hkeys] at h
+  obtain ⟨h1, h2, h3, h4⟩ := h
+  refine ⟨h1, h2, fun j hj => ?_, h4⟩
+  rw [h3 j hj, hkey j hj, hkd j hj]
+
+/-- non-vacuity: two keys with shape (2, 3); rows (1,2) (0,1) (1,-1) (1,2) (0,1) (0,0): codes 0 1 -1 0 1 2, three
+distinct keys, `uniques` holds the rows (1,2) (0,1) (0,0) -/
+example :
+    let rows : List (List Int) := [[1, 2], [0, 1], [1, -1], [1, 2], [0, 1], [0, 0]]
+    let r := Generated.Loops.combine_factorizations_arr .f 6 2 (matOf rows) 2 (arrOf (LoopBridge.weightsOf [2, 3]) 0) 6
+      (fun _ => -1)
+    ((List.range 6).map (fun (j : Nat) => r.1.1 (j : Int)), r.1.2.2,
+      (List.range 3).map (fun (g : Nat) => (r.1.2.1 (g : Int) 0, r.1.2.1 (g : Int) 1)), r.2)
+      = ([0, 1, -1, 0, 1, 2], 3, [(1, 2), (0, 1), (0, 0)], false) := by decide
 
 end GV.C02
